@@ -1719,3 +1719,26 @@ func nil2(care, want func(env map[string]bool) bool, f *pcF) func(env map[string
 		return false
 	}
 }
+
+// loadedFieldName: v reads field f of some struct (x.f on a value, or a load
+// through &x.f); the field's name, else "".
+func loadedFieldName(v ssa.Value) string {
+	switch x := v.(type) {
+	case *ssa.Field:
+		if st, ok := x.X.Type().Underlying().(*types.Struct); ok {
+			return st.Field(x.Field).Name()
+		}
+	case *ssa.UnOp:
+		if x.Op != token.MUL {
+			return ""
+		}
+		if fa, ok := x.X.(*ssa.FieldAddr); ok {
+			if pt, ok := fa.X.Type().Underlying().(*types.Pointer); ok {
+				if st, ok := pt.Elem().Underlying().(*types.Struct); ok {
+					return st.Field(fa.Field).Name()
+				}
+			}
+		}
+	}
+	return ""
+}
